@@ -3,7 +3,7 @@
 //!
 //! usage: vh_lsshutdown <cases.ndjson>
 //! Every line: {"run": K, "after": [ {"k":"req","id":N} | {"k":"notif"} | {"k":"resp"} | {"k":"exit"} ... ]}
-//! The `shutdown` request has id 1.  All messages of `after` are queued before handle_shutdown is
+//! The `shutdown` request has id 1000.  All messages of `after` are queued before handle_shutdown is
 //! called, so the outcome does not depend on timing; when `after` has no `exit` the client side is
 //! closed instead (handle_shutdown then sees the closed channel).
 //! Output: the event format of vh_lsproto (reset / csend / ssend / exit / quiesce).
@@ -30,11 +30,11 @@ fn main() {
         println!("{}", json!({"ev":"reset","run":case["run"]}));
         let (server, client) = Connection::memory();
         let shutdown = Request {
-            id: RequestId::from(1),
+            id: RequestId::from(1000),
             method: "shutdown".to_string(),
             params: Value::Null,
         };
-        println!("{}", json!({"ev":"csend","kind":"req","id":1,"method":"shutdown"}));
+        println!("{}", json!({"ev":"csend","kind":"req","id":1000,"method":"shutdown"}));
         let mut has_exit = false;
         for m in case["after"].as_array().cloned().unwrap_or_default() {
             let k = m["k"].as_str().unwrap_or("");
